@@ -549,6 +549,8 @@ C01.defined: wherever constraints_and_type_name renders a component with the `<P
     empty_set(m, ctx, "C01.emptyset", &derive);
     unsupported_kinds(m, ctx, "C01.unsupported");
     fixed_values(m, ctx, "C01.fixed");
+    instance_of(m, ctx, "C01.instanceof");
+    collisions(m, ctx, "C01.collide");
     // names that are referred to are the names that are generated (shared with C02.defname)
     crate::rules::c02::defname(m, ctx, "C01.defname");
     // the type of a component and the type of its DEFAULT function / value are chosen by two selectors (shared with C06.agree)
@@ -807,6 +809,92 @@ pub fn fixed_values(m: &Model, ctx: &mut Ctx, rule: &str) {
             Ok(o) => ctx.fail_closed(rule, &format!("value_to_tokens on {}: result {}", kind, o.show().chars().take(100).collect::<String>())),
             Err(e) => ctx.fail_closed(rule, &format!("value_to_tokens on {}: {}", kind, e)),
         }
+    }
+}
+
+/// `T ::= INSTANCE OF CLS` (X.681 Annex C: `[UNIVERSAL 8] IMPLICIT SEQUENCE { type-id CLS.&id, value [0] CLS.&Type }`).
+/// The lexer's `instance_of` is evaluated on a class name: if what it builds is a plain type reference to the *class*, the
+/// bindings name a Rust type nothing defines — classes are a silent category (C10.empty), no declaration exists for them.
+pub fn instance_of(m: &Model, ctx: &mut Ctx, rule: &str) {
+    let Some(f) = m.fns.iter().find(|f| f.name == "instance_of" && f.module.starts_with("lexer")) else {
+        // no such notation in the lexer: `INSTANCE OF` is then a syntax error, which is an answer
+        ctx.oblige(rule, "instance-of:not-parsed", true);
+        return;
+    };
+    ctx.func(&f.key);
+    ctx.oblige(rule, "instance-of:what-it-becomes", true);
+    struct C { out: Vec<syn::ExprClosure> }
+    impl model::DeepCb for C {
+        fn expr(&mut self, e: &syn::Expr) {
+            if let syn::Expr::Closure(c) = e {
+                self.out.push(c.clone());
+            }
+        }
+    }
+    let mut c = C { out: vec![] };
+    model::deep_walk_block(&f.block, &mut c);
+    let Some(clo) = c.out.into_iter().find(|c| c.inputs.len() == 1) else {
+        ctx.fail_closed(rule, "instance_of: the closure building the type was not found");
+        return;
+    };
+    let consts = const_resolver(m);
+    let ev = Evaluator { consts: &consts, call_hook: &crate::eval::no_hook, inline: None };
+    match ev.apply_closure(&syn::Expr::Closure(clo.clone()), &[Val::Tuple(vec![Val::Str("CLS".into()), Val::none()])], &Env::new()) {
+        Ok(Val::Ctor(n, p, _)) if n == "ElsewhereDeclaredType" => {
+            let id = match p.first() { Some(Val::Ctor(_, _, fl)) => match fl.get("identifier") { Some(Val::Str(s)) => s.clone(), Some(o) => o.show(), None => String::new() }, _ => String::new() };
+            if id == "CLS" {
+                ctx.violate(rule, "instance-of:reference-to-the-class", &f.file, span_line(&clo),
+                    "`T ::= INSTANCE OF CLS` is read as the type reference `CLS`: the bindings declare `struct T(pub CLS)`, but an information object class has no Rust declaration (classes generate nothing) — E0425 without a warning; X.681 Annex C defines the notation as `[UNIVERSAL 8] IMPLICIT SEQUENCE { type-id CLS.&id, value [0] CLS.&Type }`");
+            }
+        }
+        Ok(_) => {}
+        Err(e) => ctx.fail_closed(rule, &format!("instance_of: {}", e)),
+    }
+}
+
+/// Distinct ASN.1 names that the case rules map to one Rust identifier (`ub-localeContextSyntax` / `ub-locale-context-syntax`,
+/// both value references of X.520 UpperBounds; `Foo-Bar` / `FooBar`): the manglers are evaluated on such pairs. Where a
+/// pair collides, two items of one module get the same name (E0428) unless a collision is noticed and reported.
+pub fn collisions(m: &Model, ctx: &mut Ctx, rule: &str) {
+    let consts = const_resolver(m);
+    let hook = |_: &Evaluator, name: &str, a: &[Val]| -> Option<Result<Val, String>> {
+        match name {
+            "Ident::new" | "proc_macro2::Ident::new" => Some(Ok(a.first().cloned().unwrap_or(Val::Unit))),
+            "Span::call_site" | "proc_macro2::Span::call_site" => Some(Ok(Val::Unit)),
+            "TokenStream::from_str" => Some(Ok(Val::Ctor("Ok".into(), vec![a.first().cloned().unwrap_or(Val::Unit)], BTreeMap::new()))),
+            _ => None,
+        }
+    };
+    let inl = inline_all(m, &["Rasn"]);
+    let inl: BTreeMap<_, _> = inl.into_iter().filter(|(k, _)| k.contains("to_rust_")).collect();
+    // none of the probed names is a keyword
+    let no_keywords = |name: &str| -> Option<Val> { if name.ends_with("RUST_KEYWORDS") { Some(Val::List(vec![])) } else { consts(name) } };
+    let ev = Evaluator { consts: &no_keywords, call_hook: &hook, inline: Some(&inl) };
+    let mut colliding = vec![];
+    for (fname, a, b) in [("to_rust_const_case", "ub-localeContextSyntax", "ub-locale-context-syntax"), ("to_rust_title_case", "Foo-Bar", "FooBar"), ("to_rust_snake_case", "localeContext", "locale-context")] {
+        let Some(f) = anchor_fn(m, ctx, rule, Some("Rasn"), fname, None) else { continue };
+        ctx.oblige(rule, &format!("{}:{}~{}", fname, a, b), true);
+        let p = f.sig.inputs.iter().filter_map(|x| match x { syn::FnArg::Typed(t) => Some(tok(&t.pat)), _ => None }).next().unwrap_or("input".into());
+        let mut out = vec![];
+        for name in [a, b] {
+            let mut env = Env::new();
+            env.insert("self".into(), Val::ctor("Rasn"));
+            env.insert(p.clone(), Val::Str(name.into()));
+            match ev.eval_fn_body(&f.block, &mut env) {
+                Ok(Val::Str(s)) | Ok(Val::Sym(s)) => out.push(s),
+                Ok(Val::Ctor(ok, pp, _)) if ok == "Ok" => out.push(pp.first().map(|v| match v { Val::Str(s) | Val::Sym(s) => s.clone(), o => o.show() }).unwrap_or_default()),
+                Ok(o) => { ctx.fail_closed(rule, &format!("{}({:?}): result {}", fname, name, o.show().chars().take(80).collect::<String>())); break; }
+                Err(e) => { ctx.fail_closed(rule, &format!("{}({:?}): {}", fname, name, e)); break; }
+            }
+        }
+        if out.len() == 2 && out[0] == out[1] {
+            colliding.push(format!("{}: `{}` and `{}` -> `{}`", fname, a, b, out[0]));
+        }
+    }
+    if !colliding.is_empty() {
+        let f = m.fns.iter().find(|f| f.name == "to_rust_const_case");
+        ctx.violate(rule, "distinct-names-one-identifier", f.map(|f| f.file.as_str()).unwrap_or(""), f.map(|f| f.line).unwrap_or(0),
+            &format!("distinct ASN.1 names are given one Rust identifier ({}), and nothing between the manglers and the emitted module notices two items of one name: `ub-localeContextSyntax INTEGER ::= 128  ub-locale-context-syntax INTEGER ::= 64` (X.520 UpperBounds) compiles without a warning to two constants `UB_LOCALE_CONTEXT_SYNTAX` (E0428)", colliding.join("; ")));
     }
 }
 
